@@ -49,8 +49,8 @@ class Ctx:
         out = []
         ci = self.prog.cls(TS)
         for name, fi in ci.methods.items():
-            if name == "__init__":
-                continue
+            if name == "__init__" or fi.qual in self.scan.absorbed:
+                continue  # an extracted helper is judged as part of the methods that call it
             for e in self.scan.events(fi.qual):
                 if self._is_store_mutation(e):
                     out.append(fi)
